@@ -60,7 +60,7 @@ def main():
         return p
     # (a) templates of C01: render + cache lifetimes
     cases = C01.gen_cases(c)
-    cases = cases[::5] if c.thorough else cases[::3]     # (thorough generates ~170k texts; the ledger of every fifth is ~200 MB per run)
+    cases = cases[::6] if c.thorough else cases[::4]     # (thorough generates ~170k texts; the ledger of every sixth is ~200 MB per run)
     inp = os.path.join(c.out, "templates.txt")
     C01.write_cases(inp, cases)
     # (the optimised build without ASan lets a double release reach the ledger instead of aborting at the first stale read)
